@@ -23,7 +23,8 @@ RULE = (
     "pristine copy of the payload, and info must list exactly the content files, never the metafile or a probe file), align); quick = the empty set, "
     "every single option (2 draws), all 45 pairs, the full set (3 draws), 16 aimed records and random subsets; thorough = all "
     "1024 subsets x 3 value draws.  Every record is turned into a metafile by three routes, each run in a FRESH interpreter "
-    "with HOME and the working directory pointed at per-run scratch directories: (a) `python -m torrentfile create|new|<implicit> ...` with "
+    "with HOME and the working directory pointed at per-run scratch directories and PYTHONHASHSEED rotating over 0 / 1 / 2 / 12345 / "
+    "random from route to route (metafiles that must be identical come from processes whose sets iterate differently): (a) `python -m torrentfile create|new|<implicit> ...` with "
     "the flags in canonical and permuted orders, long / short / alias (--tracker) / abbreviated / --flag=value spellings, the "
     "content path first, in the middle, last, and directly after each list-valued flag (-a/--announce/--tracker, --web-seed, "
     "--http-seed) so that argparse swallows it and MetaFile must recover it (swallowing flag last in argv and followed by more "
@@ -418,6 +419,9 @@ def kw_spec(o, r, w, content):
     return {"cls": cls, "kwargs": kwargs}
 
 
+HASH_SEEDS = ["0", "1", "2", "12345", "random"]
+
+
 def route_class(r, info=None):
     if r["route"] == "cli":
         return "cli-swallowed" if info and info.get("swallowed_by") else "cli"
@@ -507,6 +511,10 @@ def routes_for(ctx, o, idx):
                    "announce_as": "list"})
     elif thorough:
         rs.append({"route": "keyword", "cls": "class", "pathkw": "content", "mv": "omit", "pl": "str", "announce_as": "list"})
+    # every route runs in a fresh interpreter of its own: the seed of its string hashes (PYTHONHASHSEED) rotates over the routes of
+    # a record, so that metafiles which must be identical are written by processes whose sets iterate in different orders
+    for k, r in enumerate(rs):
+        r["hashseed"] = HASH_SEEDS[(idx + k) % len(HASH_SEEDS)]
     return rs
 
 
@@ -573,7 +581,8 @@ def run_route(root, tag, o, r):
     for dp, _, fns in os.walk(w):
         mine.update(os.path.relpath(os.path.join(dp, n), w) for n in fns)
     try:
-        p = subprocess.run(cmd, cwd=cwd, env=core.impl_env({"HOME": home, "PYTHONUTF8": "1"}), capture_output=True, timeout=180)
+        p = subprocess.run(cmd, cwd=cwd, env=core.impl_env({"HOME": home, "PYTHONUTF8": "1", "PYTHONHASHSEED": str(r.get("hashseed", "0"))}),
+                           capture_output=True, timeout=180)
         rc, err = p.returncode, p.stderr.decode("utf-8", "replace")[-600:]
     except subprocess.TimeoutExpired:
         rc, err = -999, "timeout"
